@@ -42,7 +42,7 @@ func c02Deep(rt *rapid.T, db *model.DB) (stmts []model.Stmt, preload int) {
 	cr := model.Stmt{Kind: "create", Table: "big", Cols: []model.Col{{Name: "a", Type: model.TInt}, {Name: "s", Type: model.TVarchar, Len: 16}}}
 	gen.MustApply(db, cr)
 	stmts = append(stmts, cr)
-	rows := rapid.SampledFrom([]int{1100, 1170, 1200, 1300, 1500}).Draw(rt, "deep_rows")
+	rows := rapid.SampledFrom([]int{1100, 1170, 1200, 1300, 1500, 1745, 1760, 2340}).Draw(rt, "deep_rows")
 	n := 0
 	var recent []int64
 	ins := func(k int) {
